@@ -197,6 +197,12 @@ def step (d : DState) (ws : List String) : DState × String :=
       let (s, o) := SafeNet.Replication.step w d.sys (.forge a b ks)
       if o.bad then (d, "bad-op") else ({ d with sys := s }, "m" ++ joinOr (o.newMsgs.map toString))
     | _, _, _ => (d, "bad-op")
+  | ["spoof", a, h, b, l] =>
+    match a.toNat?, h.toNat?, b.toNat?, parseKeyTypes l with
+    | some a, some h, some b, some ks =>
+      let (s, o) := SafeNet.Replication.step w d.sys (.spoof a h b ks)
+      if o.bad then (d, "bad-op") else ({ d with sys := s }, "m" ++ joinOr (o.newMsgs.map toString))
+    | _, _, _, _ => (d, "bad-op")
   | ["dup", m] =>
     match m.toNat? with
     | some m =>
